@@ -319,22 +319,41 @@ func rulesC10(c *Ctx) {
 			lks = append(lks, lk)
 		}
 	})
-	find := func(tbl string) *ssa.Lookup {
+	findAll := func(tbl string) []*ssa.Lookup {
+		var out []*ssa.Lookup
 		for _, lk := range lks {
 			if n, _ := fieldLoadName(lk.X); n == tbl && sameValue(lk.Index, get.Params[1]) {
-				return lk
+				out = append(out, lk)
 			}
 		}
-		return nil
+		return out
 	}
-	li, lf, ld := find(ro.inst), find(ro.fact), find(ro.defFact)
-	if li == nil || lf == nil || ld == nil {
+	lis, lfs, lds := findAll(ro.inst), findAll(ro.fact), findAll(ro.defFact)
+	if len(lis) == 0 || len(lfs) == 0 || len(lds) == 0 {
 		c.Bad("R3", "table lookups in Get", get.Pos(), "cannot find the comma-ok lookups of the requested name in instances / factories / defaultFactories; cannot certify the precedence")
 	} else {
-		ok := dominates(li, lf) && dominates(lf, ld) &&
-			tableMiss(get, facts, lf.Block(), ro.inst, get.Params[1]) &&
-			tableMiss(get, facts, ld.Block(), ro.inst, get.Params[1]) &&
-			tableMiss(get, facts, ld.Block(), ro.fact, get.Params[1])
+		// every factory lookup lies on a miss edge of an instance lookup, every default-factory
+		// lookup on miss edges of both (an extra, earlier instance lookup - a fast path - is fine)
+		ok := true
+		li := lis[0]
+		for _, lf := range lfs {
+			okf := false
+			for _, x := range lis {
+				if dominates(x, lf) {
+					okf = true
+				}
+			}
+			ok = ok && okf && tableMiss(get, facts, lf.Block(), ro.inst, get.Params[1])
+		}
+		for _, ld := range lds {
+			okd := false
+			for _, x := range lfs {
+				if dominates(x, ld) {
+					okd = true
+				}
+			}
+			ok = ok && okd && tableMiss(get, facts, ld.Block(), ro.inst, get.Params[1]) && tableMiss(get, facts, ld.Block(), ro.fact, get.Params[1])
+		}
 		c.Check(ok, "R3", "table lookups in Get", li.Pos(), "instances, then factories on its miss edge, then default factories on both miss edges",
 			"the tables are not consulted in the order instances > factories > default factories on miss edges — a default can shadow an explicit definition or an instance is rebuilt")
 	}
